@@ -4,9 +4,9 @@ not own.
 
 Every op line is self-contained:
 
-  op <id> <opname> <pkg> (cfg u s x v p g q z l e r n k) <parts…>
+  op <id> <opname> <pkg> (cfg u s x v p g q o z l e r n k a t) <parts…>
 
-`cfg` = the thirteen model variant flags (unnamedFixed shadowFixed crossFixed voidFixed prefixFixed universeFixed resultsFixed zeroFixed lhsFixed errTypeFixed errRecvFixed typedNilFixed localsFixed), parts
+`cfg` = the sixteen model variant flags (unnamedFixed shadowFixed crossFixed voidFixed prefixFixed universeFixed resultsFixed resultOuterFixed zeroFixed lhsFixed errTypeFixed errRecvFixed typedNilFixed localsFixed), parts
 are lists with a head atom:
   (ps (<name> Z<k>)…)   parameters, `<>` = unnamed, `_` = blank; Z<k> = type of the corpus table
                         (bound by a `ty Z<k> <wire type>` prelude line)
@@ -68,11 +68,11 @@ def bit : SExp → Option Bool
 def parseFlags (args : List SExp) : Option Flags := do
   let c ← findList args "cfg"
   match ← c.mapM bit with
-  | [u, s, x, v, p, g, q, z, l, e, r, n, k] =>
+  | [u, s, x, v, p, g, q, o, z, l, e, r, n, k, a, t] =>
     some { plumb := { unnamedFixed := u, shadowFixed := s, crossFixed := x, voidFixed := v, prefixFixed := p,
-                      universeFixed := g, resultsFixed := q },
+                      universeFixed := g, resultsFixed := q, resultOuterFixed := o },
            chain := { zeroFixed := z, lhsFixed := l, errTypeFixed := e, errRecvFixed := r, typedNilFixed := n,
-                      localsFixed := k } }
+                      localsFixed := k, passFixed := a, tupleFixed := t } }
   | _ => none
 
 def tyId : SExp → Option Nat
@@ -260,11 +260,14 @@ def plumbWf (cfg : Plumb.Cfg) (kind : String) (args : List SExp) : Option (Bool 
     let outer ← parseParams args "outer"
     let inner ← parseParams args "inner"
     let n := (← parseTyIds args "rs").length
-    let rn := Plumb.effResults cfg (← parseResNames args)
+    let rn0 ← parseResNames args
+    let rn := Plumb.effResultsUncurry cfg (Plumb.names outer) rn0
     let (o, i) := Plumb.uncurryParams cfg outer inner
     let wfOk := Plumb.wrapperWellFormed (Plumb.uncurryTm cfg outer inner n)
     let rOk := Plumb.resultsOk [] (Plumb.names (o ++ i)) rn
-    some (wfOk && rOk, if wfOk && !rOk then "resultname"
+    -- a result that bears the name of an OUTER parameter is a class of its own
+    let outerClash := rn.any fun m => m != [] && (Plumb.names o).contains m
+    some (wfOk && rOk, if wfOk && !rOk then (if outerClash then "resultparam" else "resultname")
       else whyNames (Plumb.names (o ++ i)) [Plumb.fName] (n == 0 && !cfg.voidFixed))
   | "tuple" => do
     let ts ← parseTyIds args "ts"
@@ -286,7 +289,10 @@ def chainWf (s : DState) (fl : Flags) (kind : String) (args : List SExp) : Optio
     some (ErrChain.composeWf fl.chain env outs, whyZ lhsOk)
   | "fmape" => do
     let outs ← (parseTyIds args "outs").bind tysOf
-    some (ErrChain.fmapWf fl.chain env outs, "zero")
+    -- `(tupleclash 1)`: the package also calls deriveTuple on types that are assignable to, but not identical
+    -- with, f's results: fmap's `deriveTuple(f(v))` is resolved to that function and has the wrong type
+    let clash := (findList args "tupleclash").isSome && !fl.chain.tupleFixed
+    some (ErrChain.fmapWf fl.chain env outs && !clash, if clash then "tupleassign" else "zero")
   | "joine" => do
     let outs ← (parseTyIds args "outs").bind tysOf
     some (ErrChain.joinWf fl.chain env outs, "zero")
@@ -398,8 +404,9 @@ def runChain (s : DState) (fl : Flags) (name : String) (args : List SExp) : Opti
       | some (.namedNilable, true), none => if fl.chain.typedNilFixed then none else some typedNil
       | _, e => e
     let why := if errModel == some typedNil then " why=typednil" else ""
-    let m := showResult (ErrChain.joinE (zerosFor outs) f errModel)
+    let m := showResult (ErrChain.joinEC fl.chain.passFixed (zerosFor outs) f errModel)
     let sp := showResult (Spec.joinESpec (zerosFor outs) f errin)
+    let why := if why == "" && m != sp then " why=passthrough" else why
     match custom with
     | some (t, true) => some (answerErr fl.chain .joinArg t ok m sp ++ why)
     | _ => some (answer ok m sp ++ why)
@@ -417,13 +424,16 @@ def runChain (s : DState) (fl : Flags) (name : String) (args : List SExp) : Opti
       -- `fn, e := deriveFmap(f, g)` observed, then `deriveJoin(fn, e)` twice
       let fr := ErrChain.fmapEFn g f
       let inv := match ErrChain.joinFn zeros fr.fn fr.err with
-        | some r => showResult r
+        | some r => showResult (ErrChain.zeroOnError fl.chain.passFixed zeros r)
         | none => "panic"
       let sp := Spec.bindESpec zeros g f
       let invS := showResult { res := sp.res, err := sp.err, log := [] }
-      some (answer ok (showFn fr.log inv inv) (showFn sp.log invS invS))
+      let ans := answer ok (showFn fr.log inv inv) (showFn sp.log invS invS)
+      some (if ok && inv != invS then ans ++ " why=passthrough" else ans)
     else
-      some (answer ok (twice (showResult (ErrChain.bindE zeros g f))) (twice (showResult (Spec.bindESpec zeros g f))))
+      let m := twice (showResult (ErrChain.bindEC fl.chain.passFixed zeros g f))
+      let spn := twice (showResult (Spec.bindESpec zeros g f))
+      some (if ok && m != spn then answer ok m spn ++ " why=passthrough" else answer ok m spn)
   | "traverse" =>
     let out ← parseTyIds args "outs"
     let fail ← parseFail args          -- (fail i k): the call on element index i fails
